@@ -238,7 +238,7 @@ def runUrlHelpers (args : List String) : String :=
     | some t =>
       let sch := match splitScheme t with | some (a, b) => s!"{hexOfChars a}:{hexOfChars b}" | none => "none"
       let ext := match splitExtras t with | some (a, b) => s!"{hexOfChars a}:{hexOfChars b}" | none => "none"
-      s!"scheme={sch} extras={ext} archive={if looksLikeArchive t then 1 else 0}"
+      s!"scheme={sch} extras={ext} strip={hexOfChars (stripHost t)} archive={if looksLikeArchive t then 1 else 0}"
     | none => "bad-op"
   | _ => "bad-op"
 
